@@ -32,6 +32,7 @@ type Obligation struct {
 	Output  string
 	IsCover bool // cover query: must be satisfiable
 	Extra   []string // obligation-local declarations and instances
+	Inst      []string // heuristic instances of quantified assumptions (left out of the lean portfolio query)
 }
 
 type HeapInfo struct {
@@ -105,6 +106,9 @@ type VC struct {
 	frameFacts []*FrameFact
 	qfacts    []*QFact
 	witnesses []*Witness
+	skolemFns []*SkolemFn
+	atCalleeEnsures string // set while the ensures clauses of a callee are assumed at a call site
+	refTerms  map[string]bool // skolem constants / witnesses that stand for typed references
 	deltas    []Term
 	sortDecls *persistDecls
 }
